@@ -90,6 +90,17 @@ def live_boot_reads(run, failures):
                              % (b.id, len(reads[first]), first, len(reads[other]), other, reads[first][8:24].hex(), reads[other][8:24].hex())))
         out[b.id] = reads[sorted(reads)[0]]
     run.stats['live_boot_reads'] = run.stats.get('live_boot_reads', 0) + len(out)
+    # the catalog as a file, on the live object (compared with the catalog sector of the image mastered right afterwards)
+    cat = m.blobs.get(-1)
+    run.live_catalog = {}
+    for ns, p in sorted(cat.names) if cat else []:
+        key = {'iso': 'iso_path', 'jol': 'joliet_path', 'udf': 'udf_path'}[ns]
+        try:
+            o = io.BytesIO()
+            run.iso.get_file_from_iso_fp(o, **{key: p})
+            run.live_catalog[(ns, p)] = o.getvalue()
+        except Exception as e:  # noqa
+            failures.append(('C11/live-read/catalog/%s' % exc_signature(e), 'catalog-file', 'reading the boot catalog %r on the live object (%s) raised %r' % (p[:50], ns, e)))
     return out
 
 
@@ -194,6 +205,12 @@ def oracle(program, blocksize):
     else:
         cat = m.blobs.get(-1)
         catbytes = el.get('catalog_bytes', b'')
+        for (ns, p), data in sorted(getattr(run, 'live_catalog', {}).items()):
+            if data != catbytes:
+                d0 = next((i for i in range(min(len(data), len(catbytes))) if data[i] != catbytes[i]), min(len(data), len(catbytes)))
+                failures.append(('C11/catalog-as-file/%s/live-differs' % ns, 'catalog-file',
+                                 'boot catalog read through %s name %r on the live object right before mastering gives %d bytes that differ from the catalog sector of the image (first difference at byte %d)' % (ns, p[:50], len(data), d0)))
+                break
         for ns, p in sorted(cat.names) if cat else []:
             key = {'iso': 'iso_path', 'jol': 'joliet_path', 'udf': 'udf_path'}[ns]
             o = io.BytesIO()
